@@ -59,6 +59,11 @@ def random_graph(cls, rng, maxn=40, maxe=120, valrange=6):
     n = rng.randint(2, maxn)
     m = rng.randint(0, min(maxe, n * 4))
     keys = rng.sample(range(1, 400), n)
+    small_domain = rng.random() < 0.3 and n <= 40
+    if small_domain:
+        # keys, node values and edge values drawn from ONE small domain: numeric coincidences (key == value, equal edge
+        # values on different edges, value == degree) occur naturally
+        keys = rng.sample(range(0, n + 3), n)
     vals = [rng.randint(0, valrange) for _ in range(n)]
     if rng.random() < 0.3:
         # the whole i64 range, negative values and the extremes included (comparison by subtraction would overflow)
@@ -74,7 +79,7 @@ def random_graph(cls, rng, maxn=40, maxe=120, valrange=6):
             v = rng.choice(edges)[1]
         else:
             v = rng.randrange(n)
-        edges.append((u, v, 100 + i))
+        edges.append((u, v, rng.randint(0, 6) if small_domain else 100 + i))
     return G(cls, keys, vals, edges)
 
 
